@@ -1,7 +1,7 @@
 (** C09 — file, string and line views of each output stream are identical.
     Statements only; proofs in Wrapper/RouteProofs.v. *)
 From Coq Require Import List ZArith String Bool.
-From IPV.Wrapper Require Import SelOut Route Lines RouteProofs.
+From IPV.Wrapper Require Import SelOut Route Lines RouteProofs LinesState.
 Import ListNotations.
 Local Open Scope list_scope.
 
@@ -95,3 +95,16 @@ Theorem C09_appending_whole_lines : forall a b, (a = EmptyString \/ exists p, a 
   split_lines (a ++ b)%string = split_lines a ++ split_lines b.
 Proof. exact split_app_nl. Qed.
 Print Assumptions C09_appending_whole_lines.
+
+(** the line view over a call: equal to the lines of the string after every COMPLETED call, whatever the history;
+    refuted for an aborted call (finding F9, recorded in KNOWN_FINDINGS.json) *)
+Theorem C09_lines_are_string_after_completed_call : forall history chunks,
+  let s := fold_left sstep (completed_call chunks) (srun history) in
+  LinesState.lines s = split_lines (text s).
+Proof. exact lines_are_string_after_completed_call. Qed.
+Print Assumptions C09_lines_are_string_after_completed_call.
+Theorem C09_lines_after_aborted_call_refuted :
+  exists history chunks, let s := fold_left sstep (aborted_call chunks) (srun history) in
+  LinesState.lines s <> split_lines (text s).
+Proof. exact lines_are_string_after_aborted_call_refuted. Qed.
+Print Assumptions C09_lines_after_aborted_call_refuted.
